@@ -29,6 +29,15 @@ fn sexpr(e: &Expression) -> String {
     }
 }
 
+/// grouping of an operator chain: operators and `not` are spelled out, every other expression is its start column
+fn shape(e: &Expression) -> String {
+    match e {
+        Expression::Binary(def) => format!("({:?} {} {})", def.kind, shape(&def.left), shape(&def.right)),
+        Expression::Not(def) => format!("(not {})", shape(&def.expr)),
+        other => format!("@{}", other.pos().column),
+    }
+}
+
 fn val_to_json(v: &Val) -> J {
     match v {
         Val::Empty => json!({"t": "null"}),
@@ -70,6 +79,11 @@ fn eval(src: &str, strict: bool, envs: &BTreeMap<String, String>, validate: bool
 fn run(case: &J) -> J {
     let kind = case["kind"].as_str().unwrap_or("");
     match kind {
+        "parse-pair" => {
+            let a = run(&json!({"kind": "parse", "text": case["text"].clone()}));
+            let b = run(&json!({"kind": "parse", "text": case["plain"].clone()}));
+            json!({"pair": [a, b]})
+        }
         "parse" => {
             let text = case["text"].as_str().unwrap();
             match ucglib::parse::parse(OffsetStrIter::new(text), None) {
@@ -77,7 +91,7 @@ fn run(case: &J) -> J {
                     let mut out = Vec::new();
                     for s in stmts.iter() {
                         match s {
-                            Statement::Expression(e) => out.push(json!({"stmt": "expr", "sexpr": sexpr(e)})),
+                            Statement::Expression(e) => out.push(json!({"stmt": "expr", "sexpr": sexpr(e), "shape": shape(e)})),
                             Statement::Let(d) => out.push(json!({"stmt": "let", "name": d.name.fragment.as_ref(), "sexpr": sexpr(&d.value)})),
                             other => out.push(json!({"stmt": "other", "debug": format!("{:?}", other)})),
                         }
